@@ -511,6 +511,251 @@ theorem nameOnDb_statement_render_parse (text : Str) (params : List (Str × Boun
   obtain ⟨s', h1, _⟩ := nameOnDb_render_parse _ toks h C hh s g1 sp1 g2 on g3 sp2 name db _ hL2 hs
   exact ⟨s', h1⟩
 
+/-! ### the optional `ON <name>` clause: SHOW RETENTION POLICIES, KILL QUERY; DROP SHARD -/
+
+/-- The optional clause: absent, or a gap, `ON` in some case, a gap, the name in some quoting. -/
+def onPieces : Option (Render.Gap × Str × Render.Gap × NameSpelling) → Str → List (Render.Gap × Piece)
+  | none, _ => []
+  | some (g1, on, g2, sp), db => [(g1, .kw .ON on), (g2, .name sp db)]
+
+/-- A handler that ends with a look-ahead returns its result as soon as the text that follows does
+not start with one of the tokens that would continue the statement. -/
+theorem run_of_returnsAt {α : Type} {m : P α} {s : PState} {a : α} {sK : PState} {peek : Bool} {stop : List Token}
+    {k : Str} (hr : ReturnsAt m s a sK peek stop) (hb : sK.Before k)
+    (hn : peek = true → ∀ t ∈ stop, NextNot k t) : ∃ s', m.run s = .ok (a, s') := by
+  unfold ReturnsAt at hr
+  cases peek with
+  | false => exact ⟨sK, by simpa using hr⟩
+  | true =>
+    obtain ⟨lx, s1, h1⟩ := scanIW_total sK
+    simp only [if_true] at hr
+    exact ⟨_, hr lx _ ⟨s1, h1, rfl⟩ (fun hmem => hn rfl _ hmem sK lx s1 hb h1 rfl)⟩
+
+/-- `[ON <name>]` in free spelling. Absent (which denotes the empty name) one token is looked at
+and pushed back. -/
+theorem parseOnDb_render (s : PState) (c : Option (Render.Gap × Str × Render.Gap × NameSpelling)) (db k : Str)
+    (hc : c = none → db = []) (hL : Legal (onPieces c db) k) (hs : s.Before (render (onPieces c db) ++ k)) :
+    ∃ sK, sK.Before k ∧ ReturnsAt parseOnDb s db sK c.isNone [.ON] := by
+  cases c with
+  | none =>
+    have hdb := hc rfl
+    subst hdb
+    refine ⟨s, hs, ?_⟩
+    unfold ReturnsAt
+    rw [if_pos (by rfl)]
+    intro lx s' hp hne
+    unfold parseOnDb
+    rw [P.run_bind _ _ s false s' (optTok_absent .ON hp (by simpa using hne))]
+    rfl
+  | some c =>
+    obtain ⟨g1, on, g2, sp⟩ := c
+    obtain ⟨s1, h1, b1⟩ := optTok_of (t := .ON) (L := []) (step s g1 _ _ k hL hs.around)
+    obtain ⟨s2, h2, b2⟩ := parseIdent_of (name := db) (step s1 g2 _ _ k hL.tail b1.around)
+    refine ⟨s2, b2, ?_⟩
+    unfold ReturnsAt
+    rw [if_neg (by simp)]
+    unfold parseOnDb
+    rw [P.run_bind _ _ s true s1 h1]
+    exact h2
+
+/-- **SHOW RETENTION POLICIES [ON db] in free spelling.** -/
+theorem showRetentionPolicies_render_parse (fuel : Nat) (s : PState)
+    (c : Option (Render.Gap × Str × Render.Gap × NameSpelling)) (db k : Str) (hc : c = none → db = [])
+    (hL : Legal (onPieces c db) k) (hs : s.Before (render (onPieces c db) ++ k)) :
+    ∃ sK, sK.Before k ∧
+      ReturnsAt (runHandler fuel .parseShowRetentionPoliciesStatement) s (.showRetentionPolicies db) sK c.isNone [.ON] := by
+  obtain ⟨sK, hb, hr⟩ := parseOnDb_render s c db k hc hL hs
+  refine ⟨sK, hb, ?_⟩
+  unfold ReturnsAt at hr ⊢
+  simp only [runHandler, parseShowRetentionPolicies]
+  split
+  · next hp =>
+    rw [if_pos hp] at hr
+    intro lx s' h1 h2
+    rw [P.run_bind _ _ s db s' (hr lx s' h1 h2)]; rfl
+  · next hp =>
+    rw [if_neg hp] at hr
+    rw [P.run_bind _ _ s db sK hr]; rfl
+
+/-- **SHOW RETENTION POLICIES [ON db], from the first character** (without the clause the text that
+follows must not start with `ON`; the end of the input qualifies: `nextNot_eof`). -/
+theorem showRetentionPolicies_statement_render_parse (text : Str) (params : List (Str × BoundValue))
+    (tbl : List (Char × Char)) (ks : List (Render.Gap × Str)) (hks : ks.length = 3)
+    (c : Option (Render.Gap × Str × Render.Gap × NameSpelling)) (db k' : Str) (hc : c = none → db = [])
+    (hfold : foldCR text = render (kwPieces [.SHOW, .RETENTION, .POLICIES] ks ++ onPieces c db) ++ k')
+    (hL : Legal (kwPieces [.SHOW, .RETENTION, .POLICIES] ks ++ onPieces c db) (k' ++ [eofRune]))
+    (hnext : c = none → NextNot (k' ++ [eofRune]) .ON) :
+    parseStatementText text params tbl = .ok (.showRetentionPolicies db) := by
+  refine statement_of_family text params tbl [.SHOW, .RETENTION, .POLICIES] .parseShowRetentionPoliciesStatement (by simp [familyPaths]) ks hks _ k' _
+    hfold hL ?_
+  intro s hs hL2
+  obtain ⟨sK, hb, hr⟩ := showRetentionPolicies_render_parse _ s c db _ hc hL2 hs
+  refine run_of_returnsAt hr hb ?_
+  intro hp t ht
+  simp only [List.mem_cons, List.not_mem_nil, or_false] at ht
+  subst ht
+  exact hnext (by cases c <;> simp_all)
+
+/-- **KILL QUERY n [ON host] in free spelling**: the query id may carry leading zeros. -/
+theorem killQuery_render_parse (fuel : Nat) (s : PState) (g : Render.Gap) (z qid : Nat)
+    (c : Option (Render.Gap × Str × Render.Gap × NameSpelling)) (host k : Str) (hq : (qid : Int) ≤ maxUInt64)
+    (hc : c = none → host = []) (hL : Legal ((g, .int z qid) :: onPieces c host) k)
+    (hs : s.Before (render ((g, .int z qid) :: onPieces c host) ++ k)) :
+    ∃ sK, sK.Before k ∧
+      ReturnsAt (runHandler fuel .parseKillQueryStatement) s (.killQuery qid host) sK c.isNone [.ON] := by
+  obtain ⟨s1, h1, b1⟩ := parseUInt64_of (z := z) (n := qid) hq (step s g _ _ k hL hs.around)
+  obtain ⟨sK, hb, hr⟩ := parseOnDb_render s1 c host k hc hL.tail b1
+  refine ⟨sK, hb, ?_⟩
+  unfold ReturnsAt at hr ⊢
+  simp only [runHandler, parseKillQuery]
+  split
+  · next hp =>
+    rw [if_pos hp] at hr
+    intro lx s' h2 h3
+    rw [P.run_bind _ _ s qid s1 h1, P.run_bind _ _ s1 host s' (hr lx s' h2 h3)]; rfl
+  · next hp =>
+    rw [if_neg hp] at hr
+    rw [P.run_bind _ _ s qid s1 h1, P.run_bind _ _ s1 host sK hr]; rfl
+
+/-- **KILL QUERY, from the first character.** -/
+theorem killQuery_statement_render_parse (text : Str) (params : List (Str × BoundValue))
+    (tbl : List (Char × Char)) (ks : List (Render.Gap × Str)) (hks : ks.length = 2) (g : Render.Gap) (z qid : Nat)
+    (c : Option (Render.Gap × Str × Render.Gap × NameSpelling)) (host k' : Str) (hq : (qid : Int) ≤ maxUInt64)
+    (hc : c = none → host = [])
+    (hfold : foldCR text = render (kwPieces [.KILL, .QUERY] ks ++ (g, .int z qid) :: onPieces c host) ++ k')
+    (hL : Legal (kwPieces [.KILL, .QUERY] ks ++ (g, .int z qid) :: onPieces c host) (k' ++ [eofRune]))
+    (hnext : c = none → NextNot (k' ++ [eofRune]) .ON) :
+    parseStatementText text params tbl = .ok (.killQuery qid host) := by
+  refine statement_of_family text params tbl [.KILL, .QUERY] .parseKillQueryStatement (by simp [familyPaths]) ks hks _ k' _
+    hfold hL ?_
+  intro s hs hL2
+  obtain ⟨sK, hb, hr⟩ := killQuery_render_parse _ s g z qid c host _ hq hc hL2 hs
+  refine run_of_returnsAt hr hb ?_
+  intro hp t ht
+  simp only [List.mem_cons, List.not_mem_nil, or_false] at ht
+  subst ht
+  exact hnext (by cases c <;> simp_all)
+
+/-- **DROP SHARD n in free spelling** (leading zeros accepted). -/
+theorem dropShard_render_parse (fuel : Nat) (s : PState) (g : Render.Gap) (z id : Nat) (k : Str)
+    (hid : (id : Int) ≤ maxUInt64) (hL : Legal [(g, .int z id)] k) (hs : s.Before (render [(g, .int z id)] ++ k)) :
+    ∃ s', (runHandler fuel .parseDropShardStatement).run s = .ok (.dropShard id, s') ∧ s'.Before k := by
+  obtain ⟨s1, h1, b1⟩ := parseUInt64_of (z := z) (n := id) hid (step s g _ _ k hL hs.around)
+  refine ⟨s1, ?_, b1⟩
+  simp only [runHandler]
+  rw [P.run_bind _ _ s id s1 h1]; rfl
+
+/-- **DROP SHARD, from the first character.** -/
+theorem dropShard_statement_render_parse (text : Str) (params : List (Str × BoundValue))
+    (tbl : List (Char × Char)) (ks : List (Render.Gap × Str)) (hks : ks.length = 2) (g : Render.Gap) (z id : Nat) (k' : Str)
+    (hid : (id : Int) ≤ maxUInt64)
+    (hfold : foldCR text = render (kwPieces [.DROP, .SHARD] ks ++ [(g, .int z id)]) ++ k')
+    (hL : Legal (kwPieces [.DROP, .SHARD] ks ++ [(g, .int z id)]) (k' ++ [eofRune])) :
+    parseStatementText text params tbl = .ok (.dropShard id) := by
+  refine statement_of_family text params tbl [.DROP, .SHARD] .parseDropShardStatement (by simp [familyPaths]) ks hks _ k' _
+    hfold hL ?_
+  intro s hs hL2
+  obtain ⟨s', h1, _⟩ := dropShard_render_parse _ s g z id _ hid hL2 hs
+  exact ⟨s', h1⟩
+
+/-! ### CREATE USER, SET PASSWORD -/
+
+/-- The optional `WITH ALL PRIVILEGES`: three gaps and three keyword spellings. -/
+def adminPieces : Option (Render.Gap × Str × Render.Gap × Str × Render.Gap × Str) → List (Render.Gap × Piece)
+  | none => []
+  | some (g1, w1, g2, w2, g3, w3) => [(g1, .kw .WITH w1), (g2, .kw .ALL w2), (g3, .kw .PRIVILEGES w3)]
+
+/-- `<name> WITH PASSWORD '<pw>' [WITH ALL PRIVILEGES]`. -/
+def createUserPieces (g1 : Render.Gap) (sp : NameSpelling) (g2 : Render.Gap) (w1 : Str) (g3 : Render.Gap) (w2 : Str) (g4 : Render.Gap)
+    (c : Option (Render.Gap × Str × Render.Gap × Str × Render.Gap × Str)) (name pw : Str) : List (Render.Gap × Piece) :=
+  (g1, .name sp name) :: (g2, .kw .WITH w1) :: (g3, .kw .PASSWORD w2) :: (g4, .str pw) :: adminPieces c
+
+/-- **CREATE USER in free spelling** (the password is the string literal written). -/
+theorem createUser_render_parse (fuel : Nat) (s : PState) (g1 : Render.Gap) (sp : NameSpelling) (g2 : Render.Gap) (w1 : Str)
+    (g3 : Render.Gap) (w2 : Str) (g4 : Render.Gap) (c : Option (Render.Gap × Str × Render.Gap × Str × Render.Gap × Str))
+    (name pw k : Str) (hL : Legal (createUserPieces g1 sp g2 w1 g3 w2 g4 c name pw) k)
+    (hs : s.Before (render (createUserPieces g1 sp g2 w1 g3 w2 g4 c name pw) ++ k)) :
+    ∃ sK, sK.Before k ∧
+      ReturnsAt (runHandler fuel .parseCreateUserStatement) s (.createUser name pw c.isSome) sK c.isNone [.WITH] := by
+  obtain ⟨s1, h1, b1⟩ := parseIdent_of (name := name) (step s g1 _ _ k hL hs.around)
+  obtain ⟨s2, h2, b2⟩ := parseTokens_cons_of (t := .WITH) (L := []) [.PASSWORD] (step s1 g2 _ _ k hL.tail b1.around)
+  obtain ⟨s3, h3, b3⟩ := parseTokens_cons_of (t := .PASSWORD) (L := []) [] (step s2 g3 _ _ k hL.tail.tail b2.around)
+  have h23 : (parseTokens [.WITH, .PASSWORD]).run s1 = .ok ((), s3) := by rw [h2, h3]; rfl
+  obtain ⟨s4, h4, b4⟩ := parseString_of (v := pw) (step s3 g4 _ _ k hL.tail.tail.tail b3.around)
+  have hL4 := hL.tail.tail.tail.tail
+  simp only [runHandler, parseCreateUser]
+  cases c with
+  | none =>
+    refine ⟨s4, b4, ?_⟩
+    unfold ReturnsAt
+    rw [if_pos (by rfl)]
+    intro lx s' hp hne
+    rw [P.run_bind _ _ s name s1 h1, P.run_bind _ _ s1 () s3 h23, P.run_bind _ _ s3 pw s4 h4,
+      P.run_bind _ _ s4 false s' (optTok_absent .WITH hp (by simpa using hne))]
+    rfl
+  | some c =>
+    obtain ⟨g5, w3, g6, w4, g7, w5⟩ := c
+    obtain ⟨s5, h5, b5⟩ := optTok_of (t := .WITH) (L := []) (step s4 g5 _ _ k hL4 b4.around)
+    obtain ⟨s6, h6, b6⟩ := parseTokens_cons_of (t := .ALL) (L := []) [.PRIVILEGES] (step s5 g6 _ _ k hL4.tail b5.around)
+    obtain ⟨s7, h7, b7⟩ := parseTokens_cons_of (t := .PRIVILEGES) (L := []) [] (step s6 g7 _ _ k hL4.tail.tail b6.around)
+    have h67 : (parseTokens [.ALL, .PRIVILEGES]).run s5 = .ok ((), s7) := by rw [h6, h7]; rfl
+    refine ⟨s7, b7, ReturnsAt.exact ?_⟩
+    rw [P.run_bind _ _ s name s1 h1, P.run_bind _ _ s1 () s3 h23, P.run_bind _ _ s3 pw s4 h4,
+      P.run_bind _ _ s4 true s5 h5]
+    simp only [if_true]
+    rw [P.run_bind _ _ s5 () s7 h67]
+    rfl
+
+/-- **CREATE USER, from the first character.** -/
+theorem createUser_statement_render_parse (text : Str) (params : List (Str × BoundValue))
+    (tbl : List (Char × Char)) (ks : List (Render.Gap × Str)) (hks : ks.length = 2) (g1 : Render.Gap) (sp : NameSpelling)
+    (g2 : Render.Gap) (w1 : Str) (g3 : Render.Gap) (w2 : Str) (g4 : Render.Gap)
+    (c : Option (Render.Gap × Str × Render.Gap × Str × Render.Gap × Str)) (name pw k' : Str)
+    (hfold : foldCR text = render (kwPieces [.CREATE, .USER] ks ++ createUserPieces g1 sp g2 w1 g3 w2 g4 c name pw) ++ k')
+    (hL : Legal (kwPieces [.CREATE, .USER] ks ++ createUserPieces g1 sp g2 w1 g3 w2 g4 c name pw) (k' ++ [eofRune]))
+    (hnext : c = none → NextNot (k' ++ [eofRune]) .WITH) :
+    parseStatementText text params tbl = .ok (.createUser name pw c.isSome) := by
+  refine statement_of_family text params tbl [.CREATE, .USER] .parseCreateUserStatement (by simp [familyPaths]) ks hks _ k' _
+    hfold hL ?_
+  intro s hs hL2
+  obtain ⟨sK, hb, hr⟩ := createUser_render_parse _ s g1 sp g2 w1 g3 w2 g4 c name pw _ hL2 hs
+  refine run_of_returnsAt hr hb ?_
+  intro hp t ht
+  simp only [List.mem_cons, List.not_mem_nil, or_false] at ht
+  subst ht
+  exact hnext (by cases c <;> simp_all)
+
+/-- `<name> = '<pw>'` (after `SET PASSWORD FOR`); the gaps around `=` may be empty. -/
+def setPasswordPieces (g1 : Render.Gap) (sp : NameSpelling) (g2 g3 : Render.Gap) (name pw : Str) : List (Render.Gap × Piece) :=
+  [(g1, .name sp name), (g2, .eq), (g3, .str pw)]
+
+/-- **SET PASSWORD FOR name = 'pw' in free spelling.** -/
+theorem setPassword_render_parse (fuel : Nat) (s : PState) (g1 : Render.Gap) (sp : NameSpelling) (g2 g3 : Render.Gap)
+    (name pw k : Str) (hL : Legal (setPasswordPieces g1 sp g2 g3 name pw) k)
+    (hs : s.Before (render (setPasswordPieces g1 sp g2 g3 name pw) ++ k)) :
+    ∃ s', (runHandler fuel .parseSetPasswordUserStatement).run s = .ok (.setPasswordUser pw name, s') ∧
+      s'.Before k := by
+  obtain ⟨s1, h1, b1⟩ := parseIdent_of (name := name) (step s g1 _ _ k hL hs.around)
+  obtain ⟨s2, h2, b2⟩ := expectTok_of (t := .EQ) (L := []) ["="] (step s1 g2 _ _ k hL.tail b1.around)
+  obtain ⟨s3, h3, b3⟩ := parseString_of (v := pw) (step s2 g3 _ _ k hL.tail.tail b2.around)
+  refine ⟨s3, ?_, b3⟩
+  simp only [runHandler, parseSetPasswordUser]
+  rw [P.run_bind _ _ s name s1 h1, P.run_bind _ _ s1 () s2 h2, P.run_bind _ _ s2 pw s3 h3]
+  rfl
+
+/-- **SET PASSWORD, from the first character.** -/
+theorem setPassword_statement_render_parse (text : Str) (params : List (Str × BoundValue))
+    (tbl : List (Char × Char)) (ks : List (Render.Gap × Str)) (hks : ks.length = 3) (g1 : Render.Gap) (sp : NameSpelling)
+    (g2 g3 : Render.Gap) (name pw k' : Str)
+    (hfold : foldCR text = render (kwPieces [.SET, .PASSWORD, .FOR] ks ++ setPasswordPieces g1 sp g2 g3 name pw) ++ k')
+    (hL : Legal (kwPieces [.SET, .PASSWORD, .FOR] ks ++ setPasswordPieces g1 sp g2 g3 name pw) (k' ++ [eofRune])) :
+    parseStatementText text params tbl = .ok (.setPasswordUser pw name) := by
+  refine statement_of_family text params tbl [.SET, .PASSWORD, .FOR] .parseSetPasswordUserStatement (by simp [familyPaths]) ks hks _ k' _
+    hfold hL ?_
+  intro s hs hL2
+  obtain ⟨s', h1, _⟩ := setPassword_render_parse _ s g1 sp g2 g3 name pw _ hL2 hs
+  exact ⟨s', h1⟩
+
 /-! ### non-vacuity of the first families -/
 
 /-- `dRoP  /* c */ dataBASE⇥"a b"`: mixed case, two blanks + a block comment + a blank, a tab, a quoted name. -/
@@ -537,6 +782,43 @@ example : parseStatementText "DROP retention POLICY \"1h.cpu\"/**/on\r\nmydb".to
     (by simp [nameOnDbFamily])
     [([], "DROP".toList), ([.ws ' '], "retention".toList), ([.ws ' '], "POLICY".toList)] rfl
     [.ws ' '] .quoted [.block []] "on".toList [.ws '\n'] .bare "1h.cpu".toList "mydb".toList [] (by decide +kernel) ?_
+  exact legal_of_spaced _ _ _ _ (by decide +kernel) (by decide +kernel) (by decide +kernel)
+    (fun q _ => q.2.endOK_eof)
+
+/-- `KILL query 007 on "host 1"`: leading zeros, lower-case keywords. -/
+example : parseStatementText "KILL query 007 on \"host 1\"".toList [] [] = .ok (.killQuery 7 "host 1".toList) := by
+  refine killQuery_statement_render_parse _ [] [] [([], "KILL".toList), ([.ws ' '], "query".toList)] rfl
+    [.ws ' '] 2 7 (some ([.ws ' '], "on".toList, [.ws ' '], .quoted)) "host 1".toList [] (by decide) (by simp)
+    (by decide +kernel) ?_ (by simp)
+  exact legal_of_spaced _ _ _ _ (by decide +kernel) (by decide +kernel) (by decide +kernel)
+    (fun q _ => q.2.endOK_eof)
+
+/-- `show retention policies` at the end of the input: no clause, the empty database name. -/
+example : parseStatementText "show retention policies".toList [] [] = .ok (.showRetentionPolicies []) := by
+  refine showRetentionPolicies_statement_render_parse _ [] []
+    [([], "show".toList), ([.ws ' '], "retention".toList), ([.ws ' '], "policies".toList)] rfl none [] [] (fun _ => rfl)
+    (by decide +kernel) ?_ (fun _ => nextNot_eof _ (by decide))
+  exact legal_of_spaced _ _ _ _ (by decide +kernel) (by decide +kernel) (by decide +kernel)
+    (fun q _ => q.2.endOK_eof)
+
+/-- `set password for bob='x y'`: no blank around `=`. -/
+example : parseStatementText "set password for bob='x y'".toList [] [] =
+    .ok (.setPasswordUser "x y".toList "bob".toList) := by
+  refine setPassword_statement_render_parse _ [] []
+    [([], "set".toList), ([.ws ' '], "password".toList), ([.ws ' '], "for".toList)] rfl
+    [.ws ' '] .bare [] [] "bob".toList "x y".toList [] (by decide +kernel) ?_
+  refine (legal_append _ _ _).mpr ⟨legal_of_spaced _ _ _ _ (by decide +kernel) (by decide +kernel) (by decide +kernel)
+    (fun q _ => q.2.endOK_sepHead ⟨' ', _, rfl, by decide⟩), ?_⟩
+  exact ⟨by decide, by decide +kernel, Piece.endOK_sepHead _ ⟨'=', _, rfl, by decide⟩, rfl, rfl,
+    Piece.endOK_sepHead _ ⟨'\'', _, rfl, by decide⟩, rfl, by decide +kernel, trivial, trivial⟩
+
+/-- `Create User "jo e" with PASSWORD 'it\'s'⏎WITH all /*!*/ privileges`. -/
+example : parseStatementText "Create User \"jo e\" with PASSWORD 'it\\'s'\nWITH all /*!*/ privileges".toList [] [] =
+    .ok (.createUser "jo e".toList "it's".toList true) := by
+  refine createUser_statement_render_parse _ [] [] [([], "Create".toList), ([.ws ' '], "User".toList)] rfl
+    [.ws ' '] .quoted [.ws ' '] "with".toList [.ws ' '] "PASSWORD".toList [.ws ' ']
+    (some ([.ws '\n'], "WITH".toList, [.ws ' '], "all".toList, [.ws ' ', .block "!".toList, .ws ' '], "privileges".toList))
+    "jo e".toList "it's".toList [] (by decide +kernel) ?_ (by simp)
   exact legal_of_spaced _ _ _ _ (by decide +kernel) (by decide +kernel) (by decide +kernel)
     (fun q _ => q.2.endOK_eof)
 
